@@ -953,6 +953,8 @@ def check_no_silent_loss(rep: Report, ctx: Any, rid: str, sources: set[str]) -> 
     cfgs: dict[str, Any] = {}
     sites = []   # (function, loop, delivering statements, item names)
     identity: set[str] = set()
+    placed: set[str] = set()
+    called: set[str] = set()
     n_fill = 0
     calls = [x for x in call_sites(ix) if x[2] is ep.module]
     found: dict[str, tuple[Any, list[tuple[ast.stmt, list[ast.AST], list[ast.AST]]]]] = {}
@@ -977,8 +979,8 @@ def check_no_silent_loss(rep: Report, ctx: Any, rid: str, sources: set[str]) -> 
                 for k in ast.walk(e):
                     if isinstance(k, ast.keyword) and k.arg == "name":
                         named |= _item_attrs(ix, g, _closure(lc, k.value, P), P)[0]
-            rep.require(where_to and named, f"the attributes of the item that select the collection and give the name at the delivery in "
-                                            f"{short(g)}:{st.lineno}")
+            placed |= where_to
+            called |= named
             identity |= where_to | named
             loops.setdefault(id(inner), (inner, []))[1].append(st)
         for inner, sts in loops.values():
@@ -994,6 +996,8 @@ def check_no_silent_loss(rep: Report, ctx: Any, rid: str, sources: set[str]) -> 
                             if ys:
                                 sites.append((h, lp, ys))
     rep.floor("parameter_fill_sites", n_fill, 1)
+    rep.require(placed and called, "the attributes of the item that select the collection, and those that give the name, at the deliveries "
+                                   "into the parameter collections")
     n_dec = 0
     for g, loop, sts in sites:
         lc = Locals(g.node)
